@@ -105,7 +105,9 @@ func runBook(t *testing.T, evs []bookEv) (res bookResult) {
 				b.Ban(e.Idx)
 				banned[peers[e.Idx].Host] = time.Now().Add(banDur)
 			case e.Kind == "tick-half":
-				time.Sleep(banDur / 2)
+				// (two of these end 300 ms before a ban made at the start runs out: the last second of a
+				// ban is still the ban)
+				time.Sleep(banDur/2 - 150*time.Millisecond)
 			case e.Kind == "tick-full":
 				time.Sleep(banDur + time.Second)
 			}
@@ -165,10 +167,12 @@ func runBook(t *testing.T, evs []bookEv) (res bookResult) {
 		for h, u := range banned {
 			left := time.Until(u)
 			bucket := "expired"
-			if left > banDur/2 {
+			if left > banDur/2+time.Second {
 				bucket = "full"
-			} else if left > 0 {
+			} else if left > time.Second {
 				bucket = "half"
+			} else if left > 0 {
+				bucket = "last-second"
 			}
 			bs = append(bs, h+":"+bucket)
 		}
@@ -187,10 +191,12 @@ func runBook(t *testing.T, evs []bookEv) (res bookResult) {
 		for h, u := range b.Banned() {
 			left := time.Until(u)
 			bucket := "expired"
-			if left > banDur/2 {
+			if left > banDur/2+time.Second {
 				bucket = "full"
-			} else if left > 0 {
+			} else if left > time.Second {
 				bucket = "half"
+			} else if left > 0 {
+				bucket = "last-second"
 			}
 			ib = append(ib, h+":"+bucket)
 		}
